@@ -251,8 +251,18 @@ class Interp:
             return
         prev_lk = st.get(f"lk:{var}")
         prev_nn = st.get(f"nn:{var}")
+        prev_tr = st.get(f"tr:{var}")
+        was_errvar = st.get("errvar") == var
         self.kill(st, var)
         v = value
+        # x = [e for e in x if cond] : a filtered copy of itself (empty stays empty, otherwise unknown); still "the validator's error list"
+        if isinstance(v, (ast.ListComp,)) and len(v.generators) == 1 and isinstance(v.generators[0].iter, ast.Name) and v.generators[0].iter.id == var and isinstance(v.elt, ast.Name) and isinstance(v.generators[0].target, ast.Name) and v.elt.id == v.generators[0].target.id:
+            st[f"nn:{var}"] = "NN"
+            if prev_tr == "F" or (prev_tr == "T" and not v.generators[0].ifs):
+                st[f"tr:{var}"] = prev_tr
+            if was_errvar:
+                st["errvar"] = var
+            return
         if isinstance(v, ast.Constant):
             if v.value is None:
                 st[f"nn:{var}"] = "N"
